@@ -8,6 +8,34 @@ QUICK_SUITES = ["c07", "c06", "c11", "c13", "c12t"]
 ALL_SUITES = ["c07", "c06", "c11", "c13", "c12t", "c12", "c04"]
 
 
+def run_grid(chk, tier):
+    """The operator / operand-type grid and the extra programs of the static semantics (MC_Static: every binary and
+    assignment operator x pairs of operand types, every one-operand form x operand types; most of them ill-typed).
+    No outcome is predicted here: the checker may refuse a program; one it accepts — as written and with its
+    operands visible to the folder — is run with the hooks on, judged event by event, and must not panic."""
+    import json
+    from checks import static as S
+    work = C.workdir("sound_grid")
+    _, res, paths = S._extra(tier, work)
+    chk.add_tlc("MC_Static(grid)", res, "emission of the operator / operand-type grid and the extra programs")
+    cases = os.path.join(work, "grid_cases.ndjson")
+    with open(cases, "w") as out:
+        for p in paths:
+            for d in C.read_ndjson(p):
+                if d["id"] == "static-params-duplicate-name":
+                    # two parameters of one name: the recorder identifies arguments by parameter name and cannot
+                    # tell them apart (the later parameter is the one the body sees); not judged by events
+                    continue
+                out.write(json.dumps({"id": d["id"], "suite": "grid", "prog": d["prog"], "negative": True, "twin": True,
+                                      "exp": {"status": "rejected", "v": {"k": "void"}, "log": []}}) + "\n")
+    events = os.path.join(work, "events.ndjson")
+    rc, txt = C.run_vh(["lang", cases, events], timeout=3000)
+    r = json.loads(txt)
+    r["events_path"] = events
+    r["suite"] = "grid"
+    return r
+
+
 def run_sound(prop, tier, rule, assumptions):
     chk = C.Check(prop, tier)
     results = []
@@ -15,6 +43,7 @@ def run_sound(prop, tier, rule, assumptions):
         results.append(L.run_suite(chk, s, tier))
     n = 6000 if tier == "thorough" else 700
     results.append(G.run_gen(chk, tier, n))
+    results.append(run_grid(chk, tier))
     merged = os.path.join(C.workdir("sound_" + prop), "events.ndjson")
     with open(merged, "w") as out:
         for r in results:
